@@ -11,6 +11,8 @@ CHECKS = {
          "history-based; closure clauses are suspended for an actor after a call that raised half-way (DESIGN C03) and resume after close()/clear()"),
  "C04": ("seeded simulation over all three classes and provenances; every add-type step is judged: existing (id -> members, attrs) unchanged, new automatic IDs fresh, refused explicit IDs warn and change nothing",
          "provenance x history property; automatic IDs are adopted from the SUT, only freshness is demanded"),
+ "C06": ("views and statistics recomputed through the public API after every step of a seeded edit history and compared with values derived from the reference model (degree/size with all arguments, directed variants, attrs, output formats and multi-stats, filterby in all modes, filterby_attr, neighbors, lookup, isolates, singletons, empty, maximal, duplicates); view and stat objects captured by hold steps are re-evaluated after every later mutation",
+         "which of several equal-member edges duplicates() spares is not pinned (docstring and code disagree); DiHypergraph is left out of neighbors/lookup/duplicates/maximal, which the directed views do not implement"),
  "C07": ("twin derivations (copy / pickle round trip / same-class constructor) as operations of the simulated world; equality at birth against the source's model, then edits interleaved across source and twins by the seeded scheduler with every actor compared with its own model after every step; in-place edits of nested attribute values on copy() twins",
          "the interleaving of edits across live objects is the schedule; ctor twins share nested node-attribute values by design and receive no nested edits"),
  "C08": ("observers (every xgi callable whose first parameter is a network, enumerated by introspection, plus view/stat methods) interleaved with mutations; deep ordered snapshot incl. next automatic ID before/after each call, and a differential schedule: the same run with all reads elided must end in the same world",
